@@ -746,6 +746,7 @@ static std::string run_case(const CaseFile &c) {
     std::string msg;
     {
         Machine m; m.allow = c.get("allow");
+        if (const char *ev = getenv("VERIF_C19_ALLOW")) m.allow += ev;     // e.g. VERIF_C19_ALLOW=F-PKTKEY-UAF: search without that exclusion (after a fix)
         for (size_t i = 0; i < ops.size() && msg.empty(); i++) {
             msg = m.step(ops[i]);
             if (msg.empty()) msg = m.verify();
